@@ -79,7 +79,14 @@ func safeWrite(rw *message.ReadWriter, m message.Message, v2 bool) (out B, panic
 		}
 	}()
 	raw := rw.Write(m, v2)
-	return B(append([]byte{}, raw.Payload...)), false
+	out = B(append([]byte{}, raw.Payload...))
+	// what the encoder returned belongs to the caller: it is overwritten and appended to at once (a ground station that
+	// patches the target into a message it encoded once) - no later result may change because of that
+	for i := range raw.Payload {
+		raw.Payload[i] = 0xEE
+	}
+	_ = append(raw.Payload, 0xEE, 0xEE, 0xEE, 0xEE)
+	return out, false
 }
 
 // safeRead decodes payload placed in a window of a larger backing array whose spare capacity holds
